@@ -35,6 +35,7 @@ type MW struct {
 	// NoAmbiguity: honest operations must succeed (fault-free sub-profile)
 	Strict       bool
 	forceAdvMode int
+	forceMeltSat uint64
 	NextPlans    []*FaultPlan // fault plans for the next step's episode
 	Faulted      bool         // a storage error was injected: oracles that need exact knowledge relax
 	// Locks: honest swaps sometimes produce P2PK/HTLC locked proofs, spent later with a witness
@@ -290,6 +291,10 @@ func (m *MW) StepMelt() {
 		msat += uint64(1 + m.T.Choose("melt.msatrem", 999))
 	}
 	mpp := m.MPP && m.T.Chance("melt.mpp", 1, 3)
+	if m.forceMeltSat > 0 {
+		// fixed scenarios: a whole number of sats, partial payment of exactly half of it
+		amtSat, msat, mpp = m.forceMeltSat, m.forceMeltSat*1000, m.MPP
+	}
 	m.exactMelt = m.T.Chance("melt.exact", 1, 2)
 	m.rc.Op("melt")
 	inv := m.W.LN.NewExternalInvoice(msat)
